@@ -56,7 +56,9 @@ pub fn dash_path(path: &Path, dash_array: &[f32], mut dash_offset: f32) -> Path 
     };
 
     // adjust our position in the dash array by the dash offset
-    while dash_offset > state.remaining_length {
+    // (>= so that an offset that lands exactly on the start of a dash begins that dash properly
+    // instead of leaving a zero-length piece of the previous gap in front of it)
+    while dash_offset >= state.remaining_length {
         dash_offset -= state.remaining_length;
         state.index += 1;
         state.remaining_length = dash_array[state.index % dash_array.len()];
